@@ -363,6 +363,10 @@ def main():
     if prop not in ENGINE_OF:
         print('property %s is not claimed by any engine (see MANIFEST not_applicable)' % prop); return 2
     engine = ENGINE_OF[prop]; E = ENGINES[engine]
+    global BUILD
+    if os.path.realpath(args.repo) != '/repo':
+        # checks against a scratch copy (sensitivity runs) build elsewhere, so that they can run next to a check of /repo
+        BUILD = os.path.join(VERIF, 'build', 'alt-' + hashlib.sha1(os.path.realpath(args.repo).encode()).hexdigest()[:10])
     os.makedirs(os.path.join(BUILD, 'tmp'), exist_ok=True)
     t0 = time.time()
     common = build_common(engine)
